@@ -1732,8 +1732,24 @@ impl<'a> Gen<'a> {
             }
             (vec![("q.prql".to_string(), src)], None)
         } else {
-            let p = gen_project(r, self.corpus);
+            let mut p = gen_project(r, self.corpus);
             let mp = if p.main_path.is_empty() { None } else { Some(p.main_path.join(".")) };
+            // fault `unreadable_file` (own PRNG stream): one or two files whose bytes are not
+            // UTF-8, so that the tool's read of them fails (audit 7, K4 / F17)
+            let mut ur = Rng::new(mix(r.next_u64(), 0x10e44));
+            if ur.below(6) == 0 {
+                let n = p.files.len();
+                for _ in 0..ur.range(1, 2) {
+                    let k = ur.below(n);
+                    if p.files[k].0.ends_with(".prql") {
+                        p.files[k].1 = "%%RAW%%let x = %FF%FE 1\n".to_string();
+                    }
+                }
+                if ur.below(2) == 0 {
+                    // and more files, so that two unreadable ones are likelier to be apart
+                    p.files.push(("zz_bad.prql".to_string(), "%%RAW%%from t | select %C3%28\n".to_string()));
+                }
+            }
             (p.files, mp)
         };
         let mut args: Vec<String> = Vec::new();
